@@ -156,12 +156,19 @@ func (ex *Exec) step(instr ssa.Instruction) {
 			d.args = append(d.args, ex.val(a))
 		}
 		if len(ex.loopStackOf(x.Block())) > 0 {
-			panic(unsupported("defer inside a loop"))
+			if !ex.abstractUnknown() {
+				panic(unsupported("defer inside a loop"))
+			}
+			// under `pragma unknowncalls havoc`: a call deferred any number of times is over-approximated
+			// at function exit by one arbitrary effect (havoc is idempotent and includes "nothing")
+			ex.fr.loopDefers = append(ex.fr.loopDefers, calleeName(c))
+			break
 		}
 		ex.st.defers = append(ex.st.defers, d)
 	case *ssa.RunDefers:
 		ds := ex.st.defers
 		ex.st.defers = nil
+		ex.runLoopDefers()
 		for i := len(ds) - 1; i >= 0; i-- {
 			if ds[i].cond.S == "" {
 				ex.callValue(nil, ds[i].call, ds[i].fn, ds[i].args, ds[i].pos)
@@ -174,6 +181,7 @@ func (ex *Exec) step(instr ssa.Instruction) {
 			ex.callValue(nil, ds[i].call, ds[i].fn, ds[i].args, ds[i].pos)
 			ex.st = ex.mergeStates([]*State{ex.st, skip})
 		}
+		ex.runLoopDefers()
 	case *ssa.Go:
 		ex.doGo(x)
 	case *ssa.Send:
@@ -182,6 +190,16 @@ func (ex *Exec) step(instr ssa.Instruction) {
 		ex.setReg(x, ex.doSelect(x))
 	default:
 		panic(unsupported(fmt.Sprintf("instruction %T (%s)", instr, instr.String())))
+	}
+}
+
+func (ex *Exec) runLoopDefers() {
+	seen := map[string]bool{}
+	for _, n := range ex.fr.loopDefers {
+		if !seen[n] {
+			seen[n] = true
+			ex.abstractCall("deferred in a loop: "+n, nil, types.NewSignatureType(nil, nil, nil, nil, nil, false))
+		}
 	}
 }
 
